@@ -9,7 +9,7 @@ use crate::src::Src;
 
 pub const PLAIN_KEYS: &[&str] = &[
     "a", "b", "c", "d", "ab", "A", "_", "a1", "é", "☺", "𝄞", "", " ", "a b", "0", "1", "-1", "*", "$", "@", "a.b",
-    "length", "/", "~", "~0", "~1", "a/b", "\u{a0}", "\u{2028}", "\u{3000}a", "\u{7f}",
+    "length", "/", "~", "~0", "~1", "a/b", "\u{a0}", "\u{2028}", "\u{3000}a", "\u{7f}", "\u{ff21}", "\u{e000}", "\u{1f600}",
 ];
 
 /// names that need an escape in at least one quoting style, or in every one
@@ -84,7 +84,11 @@ pub fn gen_key(src: &mut Src, cfg: &GenCfg) -> String {
         src.pick(SPECIAL_KEYS).to_string()
     } else if src.chance(3, 4) {
         // a short head of the list, so that names repeat across levels and `..name` finds several
-        src.pick(&PLAIN_KEYS[..6]).to_string()
+        if src.chance(1, 12) {
+            src.pick(&["\u{1d11e}", "\u{ff21}", "\u{e000}", "\u{1f600}"]).to_string()
+        } else {
+            src.pick(&PLAIN_KEYS[..6]).to_string()
+        }
     } else {
         src.pick(PLAIN_KEYS).to_string()
     }
